@@ -814,10 +814,10 @@ def run_property(pid, harnesses, tier, seed, level='other', explanation='', extr
     os.makedirs(os.path.join(VERIF, 'evidence'), exist_ok=True)
     with open(os.path.join(VERIF, 'evidence', pid + '.json'), 'w') as f:
         json.dump(core._jsonable(ev), f, indent=1, sort_keys=True)
+    if violations:
+        return EXIT_VIOLATION      # replayed violations are reported even if another harness of the property had an error
     if harness_errors:
         return EXIT_HARNESS
-    if violations:
-        return EXIT_VIOLATION
     return EXIT_OK
 
 
